@@ -11,6 +11,7 @@ import IcyVerif.Drv.FontDcs
 import IcyVerif.Drv.FontLoad
 import IcyVerif.Drv.IcyDraw
 import IcyVerif.Drv.Igs
+import IcyVerif.Drv.LoaderCost
 import IcyVerif.Drv.Loaders
 import IcyVerif.Drv.PalStream
 import IcyVerif.Drv.Palette
@@ -44,6 +45,7 @@ def dispatch (line : String) : String :=
   | "fontload" :: rest => FontLoad.handle rest
   | "icydraw" :: rest => IcyDraw.handle rest
   | "igs" :: rest => Igs.handle rest
+  | "loadercost" :: rest => LoaderCost.handle rest
   | "loaders" :: rest => Loaders.handle rest
   | "palstream" :: rest => PalStream.handle rest
   | "palette" :: rest => Palette.handle rest
